@@ -36,6 +36,10 @@ def gen_cases(rng, tier):
 			acc += len(x)
 			ends.append(acc)
 		trunc = sorted(set([rng.randrange(1, total) for _ in range(3)] + [e for e in ends[:-1]] + [e - 1 for e in ends] + [e + 1 for e in ends[:-1]]))
+		if kind == 'client' and rng.random() < .25 and not any(200 <= gt['status'] < 300 for gt in gts):
+			# the same responses read by a client machine whose request is a CONNECT: only a successful (2xx) response switches to
+			# tunnel mode (RFC 7231 4.3.6); every other response (407 with a body ...) is an ordinary message
+			kind = 'client-connect'
 		cases.append({'k': 'wf', 'kind': kind, 'gt': gts, 'sers': [x.hex() for x in sers], 'trunc': [t for t in trunc if 0 < t < total]})
 	return cases
 
@@ -146,7 +150,7 @@ def classify(c, o, fail):
 		return D13
 	import re
 	m = re.search(r'refused with 400 after \d+ octets, in message (\d+) ', fail) or re.search(r'message (\d+) parsed alone is refused with 400', fail)
-	if m and c['kind'] == 'client' and int(m.group(1)) < len(c['gt']) and c['gt'][int(m.group(1))].get('reason') == '':
+	if m and c['kind'].startswith('client') and int(m.group(1)) < len(c['gt']) and c['gt'][int(m.group(1))].get('reason') == '':
 		# the refused message is the one whose status line ends with the SP after the code
 		return D48
 	if m and c['kind'] == 'server' and int(m.group(1)) < len(c['gt']) and c['gt'][int(m.group(1))].get('method') in ('GET', 'HEAD', 'TRACE') and c['gt'][int(m.group(1))]['body']:
